@@ -18,5 +18,5 @@ echo "== existing suite only, with the change"
 git checkout -q -- . ; git clean -fdq -e target; git apply $S/${M}_patch.diff
 cargo test --workspace --offline 2>&1 | grep -E "^test result|FAILED" | sort | uniq -c | head -8
 echo "== checks on the changed tree"
-for c in $CHECKS; do (cd /verif && ./check $c --repo $W --no-evidence 2>&1 | grep -E "^(OK|FAIL|UNDECIDED|VIOLATION|KNOWN|  obligation|  clause)" | cut -c1-260); done
+for c in $CHECKS; do (cd ${VERIF_ROOT:-/verif} && ./check $c --repo $W --no-evidence 2>&1 | grep -E "^(OK|FAIL|UNDECIDED|VIOLATION|KNOWN|  obligation|  clause)" | cut -c1-260); done
 cd /; git -C /repo worktree remove --force $W
